@@ -2,15 +2,26 @@
 import r_ticket
 import r_m1
 import r_ovf
+import r_state
 
 PROPS = {
+    "C06": {
+        "rules": [r_state.rule_skip, r_state.rule_seq, r_state.rule_len, r_state.rule_done],
+        "floors": {},
+        "explanation": "tbd",
+    },
+    "C03": {
+        "rules": [r_m1.rule_clamp, r_m1.rule_amt, r_m1.rule_prov, r_m1.rule_nonempty, r_m1.rule_exact, r_ovf.rule_ovf],
+        "floors": {},
+        "explanation": "tbd",
+    },
     "C16": {
         "rules": [r_ovf.rule_ovf, r_ovf.rule_zero],
         "floors": {},
         "explanation": "tbd",
     },
     "C01": {
-        "rules": [r_m1.rule_one, r_m1.rule_prov, r_m1.rule_amt, r_m1.rule_clamp, r_m1.rule_endguard],
+        "rules": [r_m1.rule_atom, r_m1.rule_one, r_m1.rule_prov, r_m1.rule_amt, r_m1.rule_clamp, r_m1.rule_endguard],
         "floors": {},
         "explanation": "tbd",
     },
